@@ -31,6 +31,7 @@ pub enum P {
     D,
     R,
     O,
+    S,
 }
 
 #[derive(Clone, Copy, Debug, PartialEq, Eq, Hash, PartialOrd, Ord)]
@@ -62,7 +63,7 @@ pub enum Act {
     ExecCl,
 }
 
-const OFFS: [(usize, usize); 3] = [(0x40, 0x50), (0x50, 0x40), (0x0, 0x8)];
+const OFFS: [(usize, usize); 4] = [(0x40, 0x50), (0x50, 0x40), (0x0, 0x8), (0x0, 0x48)];
 const PKT1: [u8; 16] = [0x41, 1, 2, 3, 4, 5, 6, 7, 8, 9, 10, 11, 12, 13, 14, 15];
 const PKT2: [u8; 9] = [0x42, 1, 2, 3, 4, 5, 6, 7, 8];
 const CALC_VALUE: u16 = 64;
@@ -82,12 +83,15 @@ fn prog_insns(p: P) -> Vec<I> {
         // a local call out of the program, in dead code: only a permissive verifier loads it; the
         // interpreter never reaches the call
         P::O => vec![isa::mov64i(0, 7), isa::EXIT, isa::call_local(100), isa::EXIT],
+        // reads the slot at 0x40 of the fixed VM's internal buffer: under offsets (0, 0x48) it is
+        // neither pointer slot, so it is zero in a freshly (re)loaded VM
+        P::S => vec![isa::ldxdw(0, 1, 0x40), isa::EXIT],
     }
 }
 
 fn prog_bytes(p: P) -> &'static [u8] {
     static CELL: OnceLock<Vec<Vec<u8>>> = OnceLock::new();
-    let all = CELL.get_or_init(|| [P::A, P::B, P::H, P::X, P::M, P::L, P::D, P::R, P::O].iter().map(|p| isa::enc(&prog_insns(*p))).collect());
+    let all = CELL.get_or_init(|| [P::A, P::B, P::H, P::X, P::M, P::L, P::D, P::R, P::O, P::S].iter().map(|p| isa::enc(&prog_insns(*p))).collect());
     &all[p as usize]
 }
 
@@ -219,8 +223,15 @@ fn value(p: P, helper: Option<F>, kind: K, offs: u8, calc: bool, pkt: &[u8], eng
                 Exp::Err // offsets (0,8): the buffer is 16 bytes, 0x40 is outside
             }
         }
+        P::S => {
+            if kind == K::Fixed && offs == 3 {
+                Exp::Val(vec![0])
+            } else {
+                Exp::Any
+            }
+        }
         P::R => {
-            if kind != K::Fixed || offs == 2 {
+            if kind != K::Fixed || offs == 2 || offs == 3 {
                 Exp::Any // a raw address (the packet pointer) or not a metadata VM
             } else {
                 Exp::Val(vec![0])
@@ -550,7 +561,7 @@ impl Model for ApiModel {
             for k in &self.cfg.kinds {
                 out.push(Act::New(*k, None));
                 for p in &self.cfg.progs {
-                    if ((*p == P::D || *p == P::R) && *k != K::Fixed) || (*p == P::M && *k == K::NoData) {
+                    if ((*p == P::D || *p == P::R || *p == P::S) && *k != K::Fixed) || (*p == P::M && *k == K::NoData) {
                         // M on a VM without packet is an out-of-bounds load: compiled code
                         // (no checks in the JIT, a trap in Cranelift) is outside this property
                         continue;
@@ -561,16 +572,20 @@ impl Model for ApiModel {
             return;
         }
         for p in &self.cfg.progs {
-            if ((*p == P::D || *p == P::R) && s.kind != K::Fixed) || (*p == P::M && s.kind == K::NoData) {
+            if ((*p == P::D || *p == P::R || *p == P::S) && s.kind != K::Fixed) || (*p == P::M && s.kind == K::NoData) {
                 continue;
             }
             if s.kind == K::Fixed {
                 out.push(Act::SetProgram(*p, 0));
                 out.push(Act::SetProgram(*p, 1));
-                if *p != P::D {
-                    // D under offsets (0,8) reads outside the 16-byte buffer: compiled code would
+                if *p != P::D && *p != P::S {
+                    // D and S under offsets (0,8) read outside the 16-byte buffer: compiled code would
                     // trap / fault, which is outside this property
                     out.push(Act::SetProgram(*p, 2));
+                }
+                if *p != P::D && self.cfg.progs.contains(&P::S) {
+                    // a shorter buffer than (0x40,0x50) needs: D would read beyond it
+                    out.push(Act::SetProgram(*p, 3));
                 }
             } else {
                 out.push(Act::SetProgram(*p, 0));
@@ -655,7 +670,7 @@ fn cfg_for(tier: Tier, part: usize) -> Cfg {
     match tier {
         Tier::Quick => Cfg {
             kinds: if part == 0 { vec![K::Raw, K::Fixed, K::Mbuff, K::NoData] } else { vec![K::Fixed, K::Mbuff] },
-            progs: if part == 0 { vec![P::A, P::B, P::H, P::X] } else { vec![P::A, P::D, P::O, P::M, P::R] },
+            progs: if part == 0 { vec![P::A, P::B, P::H, P::X] } else { vec![P::A, P::D, P::O, P::M, P::R, P::S] },
             verifiers: vec![V::DefaultLike, V::AcceptAll, V::RejectAll, V::OnlyB],
             helpers: if part == 0 { vec![F::F, F::G] } else { vec![F::F] },
             calc: false,
@@ -664,7 +679,7 @@ fn cfg_for(tier: Tier, part: usize) -> Cfg {
         },
         Tier::Thorough => Cfg {
             kinds: vec![K::Raw, K::Fixed, K::Mbuff, K::NoData],
-            progs: if part == 0 { vec![P::A, P::B, P::H, P::X, P::M] } else { vec![P::A, P::L, P::D, P::X, P::R, P::O] },
+            progs: if part == 0 { vec![P::A, P::B, P::H, P::X, P::M] } else { vec![P::A, P::L, P::D, P::X, P::R, P::O, P::S] },
             verifiers: vec![V::DefaultLike, V::AcceptAll, V::RejectAll, V::OnlyB],
             helpers: vec![F::F, F::G],
             calc: true,
@@ -688,6 +703,7 @@ fn parse_act(s: &str) -> Act {
         "L" => P::L,
         "R" => P::R,
         "O" => P::O,
+        "S" => P::S,
         _ => P::D,
     };
     let k = |x: &str| match x {
